@@ -138,13 +138,14 @@ class Report:
             print(f'  analysed {k}: {v}')
         for h in self.known_hits:
             print(f"KNOWN-FINDING: property={self.pid} {h['rule']} {h['key']} — {h['message']} ({h['where']})")
-        if self.errors:
-            for e in self.errors:
-                print(f'ANALYSIS-ERROR property={self.pid} {e}')
-            return 2
+        # a specific violation outranks "part of the analysis could not be done": both are printed, the exit code is 1
+        for e in self.errors:
+            print(f'ANALYSIS-ERROR property={self.pid} {e}')
         if self.violations:
             for v, p in zip(self.violations, replay_paths):
                 print(f"  {v['rule']} {v['key']}: {v['message']} ({v['where']})")
                 print(f'VIOLATION property={self.pid} replay={p}')
             return 1
+        if self.errors:
+            return 2
         return 0
